@@ -129,6 +129,33 @@ def run(ctx):
         if w == 'mp_grdp':
             cfg['m'] = rng.randrange(2, 40)
         one(ctx, w, pts, cfg, fam)
+    for _ in range(80 if quick else 1500):
+        # the global cost is NOT monotone along the refinement sequence on noisy curves: a small size request m just above the first accepted
+        # size (threshold = the global cost of some early S_k) separates "first accepted, then topped up" from any other order of the two phases
+        pts, fam = gen.dyadic_curve(rng, rng.randrange(8, 24), rng.choice(['walk', 'noisyline', 'steps', 'missratio']), scale_exp=0)
+        if np.ptp(pts[:, 1]) == 0:
+            continue
+        cfg = rand_cfg(ctx, 'mp_grdp', pts)
+        cfg['cost'] = rng.choice(['smape', 'rpd', 'rmspe', 'smape'])
+        t, _tie = rdpfam.tie_threshold(rng, pts, cfg['cost'], 'mp_grdp')
+        cfg['t'] = float(t) if t > 0 else 0.05
+        cfg['m'] = rng.randrange(3, 8)
+        # where the curve offers one, a threshold strictly between the global costs of an earlier S_k (accepted) and a later S_m (rejected again)
+        try:
+            import kneeliverse.rdp as rdp_, kneeliverse.evaluation as ev_
+            tb = rdpfam.tables()
+            gs = []
+            for k_ in range(2, min(len(pts), 10) + 1):
+                red_, _ = rdp_.rdp_fixed(pts, length=k_, distance=tb[1][cfg['dist']], order=tb[4][cfg['order']])
+                gs.append(float(ev_.compute_global_cost(pts, [int(i) for i in red_], tb[3][cfg['cost']], {})))
+            pairs_ = [(a, b) for a in range(len(gs)) for b in range(a + 1, len(gs)) if gs[b] > gs[a] * (1 + 1e-6) and gs[a] > 0]
+            if pairs_:
+                a, b = rng.choice(pairs_)
+                cfg['t'], cfg['m'] = (gs[a] + gs[b]) / 2.0, b + 2
+                fam += ':non-monotone-cost'
+        except Exception:
+            pass
+        one(ctx, 'mp_grdp', pts, cfg, fam + ':small-m')
     for _ in range(450 if quick else 9000):
         pts, fam = rdpfam.random_points(ctx, 24 if quick else 64)
         w = rng.choice(['grdp', 'grdp', 'mp_grdp', 'mp_grdp', 'min_point_rdp'])
